@@ -19,14 +19,13 @@ MC_NOINSTR static void enter(int writer, const char *how)
     char sig[64];
     if (writer) {
         if (sh_writers || sh_readers) { snprintf(sig, sizeof sig, "exclusion/%s", how); mc_fail("C02", sig, "%s granted the write lock while %d writer(s) and %d reader(s) hold the lock", how, sh_writers, sh_readers); }
-        sh_writers++;
+        __atomic_add_fetch(&sh_writers, 1, __ATOMIC_SEQ_CST);
     } else {
         if (sh_writers) { snprintf(sig, sizeof sig, "exclusion/%s", how); mc_fail("C02", sig, "%s granted a read lock while a writer holds the lock", how); }
-        sh_readers++;
-        if (sh_readers >= 2) mc_exists(0);
+        if (__atomic_add_fetch(&sh_readers, 1, __ATOMIC_SEQ_CST) >= 2) mc_exists(0);
     }
 }
-MC_NOINSTR static void leave(int writer) { if (writer) sh_writers--; else sh_readers--; }
+MC_NOINSTR static void leave(int writer) { if (writer) __atomic_sub_fetch(&sh_writers, 1, __ATOMIC_SEQ_CST); else __atomic_sub_fetch(&sh_readers, 1, __ATOMIC_SEQ_CST); }
 
 static void section(int writer, const char *how)
 {
@@ -96,7 +95,7 @@ static void h_relock(int argc, char **argv)
     if (p_rwlock_reader_lock(lk)) mc_fail("C02", "exclusion/reader_lock-while-writer", "reader_lock returned TRUE while the calling thread holds the write lock: lock held by a writer and a reader");
     if (!p_rwlock_writer_unlock(lk)) mc_fail("C02", "writer_unlock-false", "writer_unlock returned FALSE");
     if (!p_rwlock_reader_lock(lk)) mc_fail("C02", "reader_lock-false", "reader_lock on a free lock returned FALSE");
-    if (p_rwlock_writer_lock(lk)) mc_fail("C02", "exclusion/writer_lock-while-reader", "writer_lock returned TRUE while the calling thread holds a read lock");
+    /* (asking for the write lock while holding a read lock is left out: POSIX allows a deadlock there and glibc does deadlock) */
     if (!p_rwlock_reader_unlock(lk)) mc_fail("C02", "reader_unlock-false", "reader_unlock returned FALSE");
     if (!p_rwlock_writer_trylock(lk)) mc_fail("C02", "free-lock-not-grantable/writer", "lock not free after the sequence");
     p_rwlock_writer_unlock(lk);
